@@ -43,3 +43,33 @@ package pledge
 //@ lemma majoritiesIntersect(n int, a int, b int, union int, inter int)
 //@   requires 0 <= n && 2*a > n && 2*b > n && union <= n && inter == a + b - union
 //@   ensures  inter > 0
+
+//@ # consulting the quorum (C11): every juror of the quorum is sent the proposal, and the round
+//@ # reports success only if no request failed - a juror's rejection or an unreachable juror always
+//@ # surfaces (the requests run in an errgroup; the model runs each at its Go call, see DESIGN 8.1).
+//@ func (r *responsible) consultQuorum(ctx context.Context, key node.Key, quorum node.Group) (err error)
+//@   pragma opaque_func_values cancel
+//@   ensures  forall k node.Key :: __in(quorum, k) ==> freighter.SpecSentTo[quorum[k].Address]
+//@   ensures  err == nil ==> (forall a address.Address :: freighter.SpecSendFailed[a] == old(freighter.SpecSendFailed[a]))
+//@   modifies freighter.SpecSentTo, freighter.SpecSendFailed
+//@   loop 0 modifies freighter.SpecSentTo, freighter.SpecSendFailed
+//@   loop 0 invariant forall k node.Key :: __seen(k) ==> freighter.SpecSentTo[quorum[k].Address]
+//@   loop 0 invariant forall a address.Address :: old(freighter.SpecSentTo[a]) ==> freighter.SpecSentTo[a]
+//@   loop 0 invariant __wgerr() == nil ==> (forall a address.Address :: freighter.SpecSendFailed[a] == old(freighter.SpecSendFailed[a]))
+//@ # a proposal round: a key is handed out only straight after a round in which a strict majority of
+//@ # the active candidates (all healthy) was consulted about exactly that key and no request
+//@ # failed; the key is larger than every key this responsible proposed before
+//@ # the candidate snapshot is whatever the Candidates function value returns; node keys stay below the
+//@ # top of the 16-bit key space (assumed)
+//@ trusted func (r *responsible) refreshCandidates()
+//@   ensures int(SpecHighest(r.candidateSnapshot)) + r.MaxProposals < 65535
+//@   modifies &r.candidateSnapshot
+//@ func (r *responsible) propose(ctx context.Context) (res Response, err error)
+//@   requires r.MaxProposals >= 1 && int(r._proposedKey) + r.MaxProposals < 65535
+//@   ensures  err == nil ==> res.Key == r._proposedKey && res.Key > old(r._proposedKey)
+//@   assert_before "return res, nil" err == nil && len(quorum) == node.SpecActiveCount(r.candidateSnapshot)/2 + 1 && (forall k node.Key :: __in(quorum, k) ==> __in(r.candidateSnapshot, k) && r.candidateSnapshot[k].State == node.StateHealthy && freighter.SpecSentTo[quorum[k].Address])
+//@   modifies r, freighter.SpecSentTo, freighter.SpecSendFailed
+//@   loop 0 modifies r, freighter.SpecSentTo, freighter.SpecSendFailed
+//@   loop 0 invariant r._proposedKey >= old(r._proposedKey) && r.MaxProposals == old(r.MaxProposals)
+//@   loop 0 invariant r._proposedKey == 0 || int(r._proposedKey) + (r.MaxProposals - __ri(0)) < 65535
+//@   loop 0 invariant __ri(0) > 0 ==> err != nil
